@@ -300,6 +300,9 @@ def rule_m3(chk: Check, mach) -> None:
                     return None
         return state
 
+    from .common import alias_map, canon_dotted
+
+    am_ = alias_map(gei.node)
     for key, check in (("peername", "peer"), ("ssl_object", "cert")):
         rets = []
         for path, _s in walk_paths(g, g.entry.id, key, step, follow=normal_only):
@@ -311,7 +314,7 @@ def rule_m3(chk: Check, mach) -> None:
             if check == "peer":
                 if is_none(rv):
                     continue
-                if not (isinstance(rv, ast.Call) and method_call(rv) and method_call(rv)[1] == "get_extra_info" and (dotted(method_call(rv)[0]) or "").endswith(".transport") and rv.args and isinstance(rv.args[0], ast.Constant) and rv.args[0].value == "peername"):
+                if not (isinstance(rv, ast.Call) and method_call(rv) and method_call(rv)[1] == "get_extra_info" and canon_dotted(method_call(rv)[0], am_).endswith(".transport") and rv.args and isinstance(rv.args[0], ast.Constant) and rv.args[0].value == "peername"):
                     good = False
             else:
                 if not (isinstance(rv, ast.Call) and rv.args and dotted(rv.args[0]) == "self.peer_certificate"):
